@@ -84,6 +84,10 @@ class VWorld:
         res = None
         if op == "subset":
             v = self.pool[e["a"] - 1]
+            if e["inner"] and max(e["inner"]) > v.size:
+                # the history addresses rows the view had when it was made (the specification's view still has them)
+                self.raised = "view %d reports %d rows, the selection it was created with has at least %d: an earlier operation changed it" % (e["a"], v.size, max(e["inner"]))
+                return False
             vec = np.zeros(v.size, dtype=bool)
             vec[[i - 1 for i in e["inner"]]] = True
             st, res = outcome(v.subset, vec)
@@ -199,9 +203,12 @@ def run(ctx):
         for _ in range(40 if ctx.quick else 400):
             worlds.append(_random_world(fx, rnd, real_pid))
         ok = []
+        nraised = 0
         for w in worlds:
             ctx.evaluations += len(w.events)
             if w.raised:
+                nraised += 1
+            if w.raised and nraised <= 3:
                 ctx.violation("fixture %s: %s after %s" % (fx.name, w.raised, [e["op"] for e in w.events]),
                               {"kind": "history", "fixture": fx.name, "ops": _ops(w)})
             if w.events:
